@@ -10,6 +10,104 @@ COMMON_NOTE = ("trusted: Coq 8.16.1 kernel (vm_compute, no native_compute), Extr
                "Go harness + build-tag verif hooks, generated constants (harness/cmd/dump); ")
 
 CLAIMED = {
+    "C01": dict(
+        text="Coq theorems, closed (no residual premise beyond the C10 invariant and a well-formed key table): for every position "
+             "satisfying the invariant the engine's legal move list (generate, make on a copy, keep if IsLegal), read through the "
+             "abstraction to the independent FIDE specification Rules/Fide.v (mailbox + coordinates, no bitboards), is a PERMUTATION of "
+             "the specification's legal moves - none missing, duplicated or extra; the pseudo-legal generator is exact class by class "
+             "(sliders, leapers, pushes and double pushes, captures, en passant, exactly the four promotions on the last rank, castling "
+             "= right held, path empty, not out of / through / into check); the engine's attack and check tests equal the "
+             "specification's; the legality filter equals 'does not leave the mover's king attacked' (also for en passant exposing the "
+             "king); hence perft of cmd/perft equals the specification's perft for EVERY depth. Tied to the code three ways on every "
+             "run: Go legal moves + successors vs the extracted specification, Go Perft vs the specification's perft and the published "
+             "tables, Go generators/filter/attackers vs the extracted engine model.",
+        note="positions satisfying the C10 invariant (= the property's 'legal position'); Go int accumulator of perft modelled as Z",
+        technique="Coq proof (refinement engine bitboard model -> FIDE mailbox specification, on top of C12, C02, C10) + differential correspondence check against the extracted specification and model",
+        ref="DESIGN.md section 0.4, C01"),
+    "C02": dict(
+        text="Coq theorems: for every position satisfying the C10 invariant and EVERY generated (pseudo-legal, a fortiori legal) move, "
+             "abs(MakeMove p m) = apply (abs p) (decode m) where apply is the successor function of the independent FIDE specification "
+             "(placement incl. castling rook / en-passant victim / promotion piece, side, rights lost by king or rook moves and rook "
+             "captures at home, en-passant target after every double push, half-move clock, full-move number), under exactly the counter "
+             "range the bytes can represent - proved necessary and sufficient (ply < 255 with parity = side, clock < 255 unless the move "
+             "resets it), with the wrap at the edge stated; placement/side/rights/en-passant need no counter hypothesis; parity holds for "
+             "New() and every parsed FEN and is kept; the move kind in the word is the one the rules recognise from the board; the "
+             "successor is a function of the rules-level position alone; along every legal game within the range the engine position is "
+             "the fold of apply. Tied to the code by successor FENs of every legal move vs the extracted specification and whole-struct "
+             "comparison of histories vs the engine model; value semantics of Position (no reference-typed field) checked by the harness.",
+        note="counter range ply < 255, half-move clock < 255 (the property's stated range); 'recoverable from a copy' is value semantics in Go, tested by copy-before/compare-after",
+        technique="Coq proof (refinement of MakeMove to the FIDE successor, case analysis over move classes) + differential correspondence check",
+        ref="DESIGN.md section 0.4, C02"),
+    "C03": dict(
+        text="Coq theorems over byte-level models of Move.String, MakeMoveFromString and NewPosition: for every generated move of every "
+             "position satisfying the C10 invariant the parser rebuilds the SAME 32-bit move word from the printed text (the kind "
+             "inferred from text and board - king moving two files, pawn changing file onto an empty square, fifth character - is the "
+             "generated kind), so MakeMoveFromString(String(m)) = MakeMove(m); printed texts are injective on generated moves; the "
+             "position command on the printed moves of any legal game ends in exactly the folded MakeMove position with exactly the "
+             "successive hashes on the repetition stack, for startpos and for fen, as long as the 1024-entry stack is not overrun (sharp: "
+             "one more is an index panic; 600 plies fit); and end-to-end against the FIDE specification: every FIDE-legal move written "
+             "in UCI notation is accepted and yields the FIDE successor, and `position startpos|fen F moves ...` of a FIDE-legal game "
+             "yields the FIDE game state. Tied to the code by NewPosition runs (whole struct + history) vs the model, replay of the same "
+             "UCI moves on the extracted specification, and print/parse round trips of every legal move.",
+        note="moves form a legal game; counters within byte range for the full-move/half-move fields (placement, side, rights, en-passant target unconditional); unicode.IsDigit table arbitrary",
+        technique="Coq proof (byte-level print/parse inverse on generated moves, induction over the game) + differential correspondence check against model and extracted specification",
+        ref="DESIGN.md section 0.4, C03"),
+    "C06": dict(
+        text="Coq theorems over a labelled transition system of the command loop (Uci/Conc.v: reader thread with the handlers, "
+             "mutex, state flag, search goroutines; one step = the code between two scheduling points of the Go source; the search is "
+             "abstract: returns by itself iff finite, or once cancelled), for ALL well-formed dialogues and ALL schedules (induction "
+             "with an 18-clause invariant, not enumeration): no position/go is ever refused; at most one bestmove per go; in every "
+             "maximal execution of a dialogue whose infinite searches are stopped every go is answered exactly once and every isready "
+             "too; an executed stop always finds its search and the bestmove follows within three steps of that goroutine; the reader "
+             "never blocks on the mutex and answers isready within seven of its own steps; deadlock freedom. The three statement orders "
+             "of the original code are each refuted by an explicit schedule (D6-D8, repaired in /repo). Tied to the code by FORCING "
+             "schedules on the real handleInput/StartSearch/search goroutine through named scheduling points: every maximal execution "
+             "of twelve short dialogues plus random ones, compared step-for-step with the model's prediction; random schedules judged by "
+             "the property alone; real-process runs with back-to-back writes.",
+        note="wall-clock promptness and one-write-per-output-line atomicity are tested (process runs), not proved; GUI obeys 'position/go only after bestmove'; ucinewgame/quit outside the modelled alphabet",
+        technique="Coq proof (invariant over all interleavings of an LTS) + forced-schedule correspondence check on the real handlers + process-level test",
+        ref="DESIGN.md section 0.4, C06"),
+    "C10": dict(
+        text="Coq theorems over the bit-level model of Position: the executable invariant (square array, twelve bitboards and "
+             "occupancy sets describe the same placement; one king each; no back-rank pawn; castling rights imply home squares; "
+             "en-passant target behind a just-advanced pawn; side that just moved not in check; byte counters) holds for New(), is "
+             "preserved by every legal move (all clauses but the check clause by EVERY generated move: in particular no king is ever "
+             "captured and SetPiece never hits an occupied square) and by null moves made when not in check; hence for every sequence "
+             "of operations and every reachable position, together with hash consistency (closing C09's premise); and from such "
+             "positions move generation, MakeMove and IsLegal never panic. Tied to the code by whole-struct comparison after every "
+             "operation of random histories; the oracle evaluates the invariant on the Go struct with a naive mailbox re-implementation.",
+        note="start positions satisfy the invariant (New(), or a FEN of a legal position: executable premise)",
+        technique="Coq proof (invariant preservation through the piece primitives and MakeMove stages, using C12 attack exactness) + differential correspondence check",
+        ref="DESIGN.md section 0.4, C10"),
+    "C13": dict(
+        text="Coq theorems over the full search model (Search/Negamax.v): whenever the root has a mating move, Search() answers a "
+             "mating move - for every requested depth below 255, every cancellation point incl. immediate timeout (then the "
+             "uncancellable depth-1 fallback decides), repaired or unrepaired window loop, every heuristic state, and every shared "
+             "table/cache state that contains no depth>=1 entry under the hash of a checkmated successor and no mate value in the "
+             "evaluation cache (both shown NECESSARY by kernel-run witnesses; both preserved by the search; the empty tables satisfy "
+             "them); a checkmated node returns exactly -INF+ply for any window without writing anything; every adopted line is headed "
+             "by a mating move, other windows fail high and are rejected. Remaining visible hypotheses: no 64-bit hash collision with a "
+             "mated successor, fewer than 256 generated moves at the root and its successors (uint8 counter), evaluation not a mate value "
+             "(C15, closed for legal material). Tied to the code by whole searches on generated mate-in-one positions (cold and warmed "
+             "tables, cancel points) vs the extracted model; the oracle demands a mating answer.",
+        note="hash-collision freedom w.r.t. mated successors and <256 generated moves are explicit hypotheses (the first is inherent to a 64-bit hash, the second an executable check); fuel <= 255",
+        technique="Coq proof (score-range and PV-window invariants over the search model, induction on fuel and over iterations) + differential correspondence check",
+        ref="DESIGN.md section 0.4, C13"),
+    "C15": dict(
+        text="Coq theorems over the int16-exact model of the static evaluation with the tables of the current Go build: "
+             "eval(mirror p) = eval(p) for every position satisfying the C10 invariant (indeed from twelve 64-bit piece sets and one "
+             "king each), with NO side condition - term by term (piece-square tables are mirror images: 768 kernel-checked "
+             "comparisons; fills/shifts/attack sets commute with the flip; rank factors r and 7-r; odd truncating division), the one "
+             "int16 corner (tapered sum = -32768) excluded for the build's tables by a divisibility argument and shown real for other "
+             "tables; mirror preserves the invariant and is an involution. And for positions with the material accounting of legal "
+             "chess (<= 8 pawns, promoted pieces paid for by missing pawns - an invariant of play, proved): the evaluation never panics, "
+             "NO int16 operation wraps (result = the same formula over Z), |score| <= 14193 < 32667 = start of the mate range; the "
+             "material hypothesis is shown necessary (nine pawns panic; 27 knights wrap; 36 queens give a mate-range score). Tied to "
+             "the code by uncached scores and accumulators of positions and their independently built mirror FENs vs the model, incl. "
+             "the model's own mirror function and material predicate.",
+        note="bound for positions with legal material (material_ok, executable; holds for every position of every game from the start position: proved)",
+        technique="Coq proof (equivariance of every evaluation term under the flip; per-term bounds with kernel-evaluated table extrema) + differential correspondence check",
+        ref="DESIGN.md section 0.4, C15"),
     "C04": dict(
         text="Coq theorems over the full Gallina transliteration of Search/SearchIterative/SearchRoot/negamax/quiescence (int16 windows, "
              "uint8 depth/ply, all prunings, PVS, tables as explicit state), for ARBITRARY table, cache and heuristic contents, any "
@@ -60,11 +158,11 @@ CLAIMED = {
         text="Coq theorems over the Gallina transliteration of the Zobrist code, for an ARBITRARY key table: the from-scratch hash "
              "reads only placement, side, held rights and en-passant file; every generated move, null move, unmake-null (whole record "
              "restored), FEN load and New() keeps 'hash = from-scratch hash'; hence every position reachable by legal moves and null "
-             "moves has it and two reachable positions equal in those four components have equal hashes (given that legal moves preserve "
-             "the C10 invariant - an explicit premise); for the generated keys, positions differing in exactly one component hash "
+             "moves has it and two reachable positions equal in those four components have equal hashes (the C10 step is proved, so no "
+             "premise remains); for the generated keys, positions differing in exactly one component hash "
              "differently; the unrepaired code is refuted with concrete witnesses (D1). Tied to the code by whole-struct comparison after "
              "every operation of random histories; oracle: incremental vs independently recomputed hash vs FEN reload.",
-        note="distinctness for arbitrary pairs of positions is not claimable for a 64-bit hash (stated); reachability theorems carry the C10 step as premise",
+        note="distinctness for arbitrary pairs of positions is not claimable for a 64-bit hash (stated); ",
         technique="Coq proof (XOR algebra, induction over histories) + differential correspondence check",
         ref="DESIGN.md section 6, C09"),
     "C11": dict(
